@@ -3,6 +3,7 @@
 package trk16
 
 import (
+	"net/url"
 	"context"
 	"errors"
 	"fmt"
@@ -70,7 +71,10 @@ func newTierRun(n int) *tierRun {
 	var trs []tracker.Tracker
 	var ms []*tierMember
 	for i := 0; i < n; i++ {
+		// the kind of failure differs between members: a plain error, the error of an HTTP client whose timeout expired
+		// (wraps context.DeadlineExceeded), an announce aborted by a cancellation that is not the caller's
 		m := &tierMember{id: i, entered: r.entered, errVal: fmt.Errorf("scripted failure of member %d", i)}
+
 		ms = append(ms, m)
 		trs = append(trs, m)
 	}
@@ -88,6 +92,12 @@ func newTierRun(n int) *tierRun {
 		seen[m.id] = true
 		m.pos = pos
 		r.members[pos] = m
+		switch pos % 3 { // by position after the constructor's shuffle, so that a history means the same in every replay
+		case 1:
+			m.errVal = &url.Error{Op: "Get", URL: m.URL(), Err: fmt.Errorf("%w (Client.Timeout exceeded while awaiting headers)", context.DeadlineExceeded)}
+		case 2:
+			m.errVal = fmt.Errorf("scripted abort of member at position %d: %w", pos, context.Canceled)
+		}
 	}
 	return r
 }
